@@ -12,7 +12,7 @@ RULE = ("cases = operand pairs enumerated by TLC: grid segments x grid segments 
         "x lattice lines / segments, polygons of 3-space and cuboids x lines / segments through lattice points, segments x lattice "
         "planes; the expected result is an exact set of projective points (or 'subset of the common points' for overlapping "
         "operands); non-trivial = touch-endpoint / through-vertex / collinear-overlap / miss / touch-edge-or-vertex")
-INVS = ["OnBoth2", "PolyLineSound", "ConvexTwo", "BoxSound"]
+INVS = ["OnBoth2", "PolyLineSound", "PolySegSound", "ConvexTwo", "BoxSound"]
 
 
 def pts_of(result):
@@ -111,32 +111,49 @@ def replay(recs):
     return out
 
 
+def _on_seg(p, a, b, tol=1e-9):
+    """Cartesian 2D/3D: p on the closed segment ab"""
+    p, a, b = (np.asarray(v, dtype=float) for v in (p, a, b))
+    ab, ap = b - a, p - a
+    cr = np.linalg.norm(np.cross(np.append(ab, 0)[:3], np.append(ap, 0)[:3])) if len(a) == 2 else np.linalg.norm(np.cross(ab, ap))
+    return cr <= tol * max(1.0, np.linalg.norm(ab)) and -tol <= np.dot(ap, ab) <= np.dot(ab, ab) + tol
+
+
 def replay_coll(recs):
     """SegmentCollection.intersect(SegmentCollection): the list returned for a collection holds, position by position, the
-    points of the positions that intersect; compared as a multiset with the union of the expected singles."""
+    points of the positions that intersect; compared as a multiset with the union of the expected singles.  Positions whose
+    segments are collinear ("rel") are mixed in: they must not disturb the other positions, and whatever is returned beyond
+    the exact points must be a common point of such a collinear pair."""
     g = import_geometer()
     out = []
-    try:
-        A = g.SegmentCollection(np.array([[r["r"]["a"] + [1], r["r"]["b"] + [1]] for r in recs]))
-        B = g.SegmentCollection(np.array([[r["r"]["c"] + [1], r["r"]["d"] + [1]] for r in recs]))
-        got = pts_of(A.intersect(B))
-        exp = [np.array(p) for r in recs for p in r["r"]["r"]["pts"]]
-        ok = len(got) == len(exp)
-        used = [False] * len(exp)
-        if ok:
+    rel = [r["r"] for r in recs if r["r"]["r"]["k"] == "rel"]
+    site = "SegmentCollection.intersect(SegmentCollection)/2D" + ("/with-collinear-pairs" if rel else "")
+    case = {"a": [r["r"]["a"] for r in recs], "b": [r["r"]["b"] for r in recs], "c": [r["r"]["c"] for r in recs], "d": [r["r"]["d"] for r in recs]}
+    for variant in ("2D", "3D-embedded"):
+        emb = (lambda v: list(v) + [1]) if variant == "2D" else (lambda v: [v[0], v[1], v[0] + 2 * v[1], 1])
+        try:
+            A = g.SegmentCollection(np.array([[emb(r["r"]["a"]), emb(r["r"]["b"])] for r in recs]))
+            B = g.SegmentCollection(np.array([[emb(r["r"]["c"]), emb(r["r"]["d"])] for r in recs]))
+            got = pts_of(A.intersect(B))
+            exp = [np.array(emb([c / p[-1] for c in p[:-1]])) for r in recs if r["r"]["r"]["k"] == "set" for p in r["r"]["r"]["pts"]]
+            used = [False] * len(exp)
+            ok = True
             for gp in got:
                 hit = [i for i, e in enumerate(exp) if not used[i] and same_class(gp, e)]
-                if not hit:
+                if hit:
+                    used[hit[0]] = True
+                    continue
+                gp = np.asarray(gp)
+                cart = (gp[:-1] / gp[-1]).real if abs(gp[-1]) > 1e-12 else None
+                if cart is None or not any(_on_seg(cart, emb(x["a"])[:-1], emb(x["b"])[:-1]) and _on_seg(cart, emb(x["c"])[:-1], emb(x["d"])[:-1]) for x in rel):
                     ok = False
                     break
-                used[hit[0]] = True
-        if not ok:
-            out.append(dict(site="SegmentCollection.intersect(SegmentCollection)/2D", stratum="general",
-                            case={"a": [r["r"]["a"] for r in recs], "b": [r["r"]["b"] for r in recs], "c": [r["r"]["c"] for r in recs], "d": [r["r"]["d"] for r in recs]},
-                            expected=[e.tolist() for e in exp], observed=[np.asarray(x).tolist() for x in got]))
-    except Exception as e:  # noqa: BLE001
-        out.append(dict(site="SegmentCollection.intersect(SegmentCollection)/2D", stratum="general", case={"count": len(recs)},
-                        expected="points", observed=f"raised {type(e).__name__}: {e}"))
+            if not ok or not all(used):
+                out.append(dict(site=site.replace("/2D", "/" + variant), stratum="collinear-overlap" if rel else "general", case=case,
+                                expected=[e.tolist() for e in exp], observed=[np.asarray(x).tolist() for x in got]))
+        except Exception as e:  # noqa: BLE001
+            out.append(dict(site=site.replace("/2D", "/" + variant), stratum="collinear-overlap" if rel else "general", case=case,
+                            expected="points", observed=f"raised {type(e).__name__}: {e}"))
     return out
 
 
@@ -163,7 +180,7 @@ def run(ctx: Ctx):
     for x in recs:
         strata[(x["r"]["t"], x["s"])] = strata.get((x["r"]["t"], x["s"]), 0) + 1
     for need in [("segseg2", "touch-endpoint"), ("segseg2", "collinear-overlap"), ("segseg2", "miss"), ("segseg2", "transversal"),
-                 ("polyline2", "through-vertex"), ("polyline2", "transversal"), ("polyline3", "transversal"), ("polyline3", "miss"),
+                 ("polyline2", "through-vertex"), ("polyseg2", "segment-on-edge-line"), ("polyline2", "transversal"), ("polyline3", "transversal"), ("polyline3", "miss"),
                  ("boxline", "transversal"), ("boxline", "touch-edge-or-vertex"), ("boxline", "miss"), ("segplane3", "transversal")]:
         if not strata.get(need):
             raise MachineryError(f"stratum {need} never visited (vacuous)")
@@ -171,6 +188,13 @@ def run(ctx: Ctx):
     jobs = [("single", recs[i:i + 200]) for i in range(0, len(recs), 200)]
     ss = [x for x in recs if x["r"]["t"] == "segseg2" and x["r"]["r"]["k"] == "set"]
     jobs += [("coll", ss[i:i + 12]) for i in range(0, len(ss), 12)]
+    # the same with one or two collinear pairs mixed into every collection (in the middle and at the end)
+    sr = [x for x in recs if x["r"]["t"] == "segseg2" and x["r"]["r"]["k"] == "rel"]
+    if not sr:
+        raise MachineryError("no collinear segment pair to mix into the collections (vacuous)")
+    for j, i in enumerate(range(0, len(ss), 7)):
+        chunk = ss[i:i + 7]
+        jobs.append(("coll", chunk[:3] + [sr[j % len(sr)]] + chunk[3:] + ([sr[(j * 5 + 1) % len(sr)]] if j % 2 else [])))
     with Pool(16) as pool:
         results = pool.map(_work, jobs, chunksize=1)
     for res in results:
